@@ -385,69 +385,45 @@ fn c17_auto_task_priority() {
     std::mem::forget(a);
 }
 
-// what the (stubbed) poll map reports: 0 = no polls configured, 1 = next poll not before POLL_AT
-static mut POLL_KIND: u8 = 0;
+// The stubs below return values whose enum discriminant is a CONSTANT of the harness: CBMC then prunes the
+// `Next::Now(x) => Next::Now(x)` arms of get_next_task (moving the 104-byte Task stalls its symbolic execution) and only
+// the deadline arithmetic is left.
 static mut POLL_AT: (u32, u32) = (0, 0);
-fn poll_next_stub(_m: &crate::master::poll::PollMap, _now: Instant) -> Next<crate::master::poll::Poll> {
-    match unsafe { POLL_KIND } {
-        0 => Next::None,
-        _ => Next::NotBefore(mk_instant(unsafe { POLL_AT.0 }, unsafe { POLL_AT.1 })),
-    }
+fn poll_next_none(_m: &crate::master::poll::PollMap, _now: Instant) -> Next<crate::master::poll::Poll> {
+    Next::None
 }
-
-/// what Association::next_link_status_task answers while the keep-alive deadline lies in the future (or is absent)
-fn link_status_not_due(a: &Association, now: Instant) -> Next<Task> {
-    match a.next_link_status_deadline {
-        None => Next::None,
-        Some(d) => {
-            assert!(now < d);
-            Next::NotBefore(d)
-        }
-    }
+fn poll_next_later(_m: &crate::master::poll::PollMap, _now: Instant) -> Next<crate::master::poll::Poll> {
+    Next::NotBefore(mk_instant(unsafe { POLL_AT.0 }, unsafe { POLL_AT.1 }))
 }
-
+static mut KA_AT: (u32, u32) = (0, 0);
+fn link_status_none(_a: &Association, _now: Instant) -> Next<Task> {
+    Next::None
+}
+/// what Association::next_link_status_task answers while the keep-alive deadline lies in the future
+fn link_status_later(a: &Association, now: Instant) -> Next<Task> {
+    let d = mk_instant(unsafe { KA_AT.0 }, unsafe { KA_AT.1 });
+    assert!(a.next_link_status_deadline == Some(d) && now < d);
+    Next::NotBefore(d)
+}
 fn no_auto_task(_s: &TaskStates, _c: &AssociationConfig, _a: &Association) -> Next<Task> {
     Next::None
 }
 
-// @harness c19_next_task_earliest_deadline
-// @props C19
-// @tier thorough
-// @class attempt
-// @timeout 3600
-// @mem 6
-// @units Association::{get_next_task, next_link_status_task}
-// @bounds an association with nothing automatic to do, any clock, any keep-alive deadline (none / past / future), the poll map reporting either "no polls" or "next poll not before P" for any instant P: the association wakes at the EARLIER of P and the keep-alive deadline, and with neither there is nothing to wait for
-// @stubs Association::next_link_status_task -> its own two not-yet-due arms (asserts the deadline is in the future: exact on every path explored); TaskStates::next -> nothing automatic to do (its priority order is c17_auto_task_priority's subject); PollMap::next -> the outcome chosen by the harness (the BTreeMap walk behind it is covered by c19_poll_period_and_demand / c19_smallest_deadline; a poll that is due NOW needs a Poll value and is outside); tokio::time::Instant::now -> harness clock
-// @outside poll due now (prioritised over link status by the first match arm); keep-alive already due (building the 104-byte Task value for it stalls CBMC's byte-extract simplifier: > 900 s in symbolic execution); automatic tasks pending
-#[kani::proof]
-#[kani::unwind(4)]
-#[kani::stub(tokio::time::Instant::now, crate::verif_common::now_fixed)]
-#[kani::stub(crate::master::poll::PollMap::next, poll_next_stub)]
-#[kani::stub(TaskStates::next, no_auto_task)]
-#[kani::stub(Association::next_link_status_task, link_status_not_due)]
-fn c19_next_task_earliest_deadline() {
+fn next_task_case(has_poll: bool, has_ka: bool) -> (Instant, Instant) {
     let now = set_now_any();
     let mut a = mk_quiet_assoc();
-    a.auto_tasks.disable_unsolicited = AutoTaskState::Idle;
-    a.auto_tasks.integrity_scan = AutoTaskState::Idle;
-    a.auto_tasks.enabled_unsolicited = AutoTaskState::Idle;
-    a.auto_tasks.clear_restart_iin = AutoTaskState::Idle;
-    a.auto_tasks.time_sync = AutoTaskState::Idle;
-    a.auto_tasks.event_scan = AutoTaskState::Idle;
-    let has_poll: bool = kani::any();
     let ps: u32 = kani::any();
     let pn: u32 = kani::any();
     kani::assume(pn < 1_000_000_000);
     let p = mk_instant(ps, pn);
     kani::assume(p > now);
-    unsafe {
-        POLL_KIND = if has_poll { 1 } else { 0 };
-        POLL_AT = (ps, pn);
-    }
-    let has_ka: bool = kani::any();
-    let d = any_instant();
+    unsafe { POLL_AT = (ps, pn) };
+    let ds: u32 = kani::any();
+    let dn: u32 = kani::any();
+    kani::assume(dn < 1_000_000_000);
+    let d = mk_instant(ds, dn);
     kani::assume(now < d);
+    unsafe { KA_AT = (ds, dn) };
     a.next_link_status_deadline = if has_ka { Some(d) } else { None };
     let r = a.get_next_task(now);
     match (has_poll, has_ka) {
@@ -459,8 +435,139 @@ fn c19_next_task_earliest_deadline() {
             assert!(matches!(r, Next::NotBefore(x) if x == e));
         }
     }
-    kani::cover!(has_poll && has_ka && now < d && d < p);
-    kani::cover!(has_poll && has_ka && now < d && p < d);
+    kani::cover!(true);
     std::mem::forget(r);
+    std::mem::forget(a);
+    (p, d)
+}
+
+// @harness c19_next_task_earliest_deadline
+// @props C19
+// @tier quick
+// @timeout 900
+// @mem 4
+// @units Association::get_next_task
+// @bounds an association with nothing automatic to do, any clock, the poll map reporting "next poll not before P" and the keep-alive deadline D, both arbitrary instants in the future: the association wakes at the EARLIER of P and D
+// @stubs PollMap::next -> NotBefore(P) (the BTreeMap walk behind it: c19_poll_period_and_demand / c19_smallest_deadline); Association::next_link_status_task -> NotBefore(D) (asserts that D is the stored deadline and lies in the future: exact on the paths explored); TaskStates::next -> nothing to do (its order: c17_auto_task_order); tokio::time::Instant::now -> harness clock.  The stubs return constant enum variants so that the Task-moving arms are pruned (DESIGN 12).
+// @outside poll due now / keep-alive due now (the `Now` arms), automatic tasks pending
+#[kani::proof]
+#[kani::unwind(4)]
+#[kani::stub(tokio::time::Instant::now, crate::verif_common::now_fixed)]
+#[kani::stub(crate::master::poll::PollMap::next, poll_next_later)]
+#[kani::stub(TaskStates::next, no_auto_task)]
+#[kani::stub(Association::next_link_status_task, link_status_later)]
+fn c19_next_task_earliest_deadline() {
+    let (p, d) = next_task_case(true, true);
+    kani::cover!(d < p);
+    kani::cover!(p < d);
+}
+
+// @harness c19_next_task_single_deadline
+// @props C19
+// @tier quick
+// @timeout 900
+// @mem 4
+// @units Association::get_next_task
+// @bounds as above with only a poll (no keep-alive configured): wakes at P
+// @stubs as c19_next_task_earliest_deadline with next_link_status_task -> None
+#[kani::proof]
+#[kani::unwind(4)]
+#[kani::stub(tokio::time::Instant::now, crate::verif_common::now_fixed)]
+#[kani::stub(crate::master::poll::PollMap::next, poll_next_later)]
+#[kani::stub(TaskStates::next, no_auto_task)]
+#[kani::stub(Association::next_link_status_task, link_status_none)]
+fn c19_next_task_single_deadline() {
+    let _ = next_task_case(true, false);
+}
+
+// @harness c19_next_task_keep_alive_only
+// @props C19
+// @tier quick
+// @timeout 900
+// @mem 4
+// @units Association::get_next_task
+// @bounds no polls configured: wakes at the keep-alive deadline D, or has nothing to wait for when there is none
+// @stubs as c19_next_task_earliest_deadline with PollMap::next -> None
+#[kani::proof]
+#[kani::unwind(4)]
+#[kani::stub(tokio::time::Instant::now, crate::verif_common::now_fixed)]
+#[kani::stub(crate::master::poll::PollMap::next, poll_next_none)]
+#[kani::stub(TaskStates::next, no_auto_task)]
+#[kani::stub(Association::next_link_status_task, link_status_later)]
+fn c19_next_task_keep_alive_only() {
+    let _ = next_task_case(false, true);
+}
+
+/// Replaces AutoTaskState::create_next_task: never builds a Task (the 104-byte task enum stalls CBMC, DESIGN 12) and
+/// reports WHICH state was asked through the instant each marked state carries
+fn create_next_task_mark(s: &AutoTaskState, _builder: impl FnOnce() -> Task) -> Next<Task> {
+    match s {
+        AutoTaskState::Idle => Next::None,
+        AutoTaskState::Pending => Next::NotBefore(mk_instant(99, 0)),
+        AutoTaskState::Failed(_, next) => Next::NotBefore(*next),
+    }
+}
+
+fn marked(code: u8, mark: u32, strategy: RetryStrategy) -> AutoTaskState {
+    if code == 0 {
+        AutoTaskState::Idle
+    } else {
+        AutoTaskState::Failed(ExponentialBackOff::new(strategy), mk_instant(mark, 0))
+    }
+}
+
+// @harness c17_auto_task_order
+// @props C17
+// @tier quick
+// @timeout 900
+// @mem 4
+// @units TaskStates::next (the fixed priority order of the six automatic tasks), AutoTaskState::is_pending
+// @bounds each of the six automatic-task states idle or not, any configuration (class sets for disable / integrity / enable / event scan, automatic time sync on or off), any events-available bits: the state that is consulted - and therefore the task that runs or whose retry is waited for - is the FIRST applicable one in the order clear-restart > disable-unsolicited > integrity > time-sync > enable-unsolicited > event-scan; so a restart is acknowledged before anything else, unsolicited reporting is switched on only after the integrity poll and time sync are out of the way, and nothing else runs while an earlier step waits for its retry
+// @stubs AutoTaskState::create_next_task -> returns NotBefore(the mark stored in the consulted state) and never calls the task constructor (which task object is built for the chosen state, and Pending/retry-due => Now, are outside: building the 104-byte Task stalls CBMC's symbolic execution, see c17_auto_task_priority)
+// @outside the Task values themselves; dynamic re-arming (c17_restart_and_iin_rearm, c17_reset_rearms_startup); retry timing (c17_auto_task_failure_schedules_retry)
+#[kani::proof]
+#[kani::unwind(4)]
+#[kani::stub(tokio::time::Instant::now, crate::verif_common::now_fixed)]
+#[kani::stub(AutoTaskState::create_next_task, create_next_task_mark)]
+fn c17_auto_task_order() {
+    set_now_any();
+    let cfg = any_config();
+    let st = cfg.auto_tasks_retry_strategy;
+    let mut a = mk_assoc(cfg);
+    let c: [u8; 6] = kani::any();
+    kani::assume(c[0] < 2 && c[1] < 2 && c[2] < 2 && c[3] < 2 && c[4] < 2 && c[5] < 2);
+    a.auto_tasks.disable_unsolicited = marked(c[0], 1000, st);
+    a.auto_tasks.integrity_scan = marked(c[1], 1001, st);
+    a.auto_tasks.enabled_unsolicited = marked(c[2], 1002, st);
+    a.auto_tasks.clear_restart_iin = marked(c[3], 1003, st);
+    a.auto_tasks.time_sync = marked(c[4], 1004, st);
+    a.auto_tasks.event_scan = marked(c[5], 1005, st);
+    a.events_available = any_ec();
+    let n = a.auto_tasks.next(&a.config, &a);
+    // 0 = nothing to do, otherwise the mark of the state that must be consulted
+    let expect: u32 = if c[3] == 1 {
+        1003
+    } else if cfg.disable_unsol_classes.any() && c[0] == 1 {
+        1000
+    } else if cfg.startup_integrity_classes.any() && c[1] == 1 {
+        1001
+    } else if c[4] == 1 && cfg.auto_time_sync.is_some() {
+        1004
+    } else if cfg.enable_unsol_classes.any() && c[2] == 1 {
+        1002
+    } else if (a.events_available & cfg.event_scan_on_events_available).any() && c[5] == 1 {
+        1005
+    } else {
+        0
+    };
+    match n {
+        Next::None => assert!(expect == 0),
+        Next::NotBefore(t) => assert!(expect != 0 && t == mk_instant(expect, 0)),
+        Next::Now(_) => panic!("the stub never builds a task"),
+    }
+    kani::cover!(expect == 1002);
+    kani::cover!(expect == 1000 && c[2] == 1 && c[1] == 1);
+    kani::cover!(expect == 0 && c[2] == 1);
+    std::mem::forget(n);
     std::mem::forget(a);
 }
